@@ -30,7 +30,15 @@ def round_trace(run, lp, it):
         ok_csv = it.get("csv") and all(CSVMAP[k] in it["csv"] and len(it["csv"][CSVMAP[k]]) == n for k in KEQ)
         # a table that is missing, unparseable or of the wrong length is reported through CsvEqualsResult (sentinel -1)
         csv = {k: num(it["csv"][CSVMAP[k]][m]) for k in KEQ} if ok_csv else {k: num(-1.0) for k in KEQ}
-        ev.append(dict(ev="Month", m=m, alloc=alloc, reported=reported, keq=keq, csv=csv, fed=num(it["kcals_fed"][m])))
+        # the other two uses of the five foods the optimiser splits: allocation (percent of the requirement) and what the result reports
+        LPF = dict(stored_food="stored_food", outdoor_crops="crops_food", seaweed="seaweed", cell_sugar="cellulosic_sugar", scp="methane_scp")
+        uk = it.get("use_keq") or {}
+        has_use = all(uk.get(f) and uk[f].get("feed") is not None and uk[f].get("bio") is not None for f in LPF)
+        use_alloc = {f: dict(feed=num(v[lf + "_feed"][m], pct), bio=num(v[lf + "_biofuel"][m], pct)) for f, lf in LPF.items()}
+        use_keq = ({f: dict(feed=num(uk[f]["feed"][m]), bio=num(uk[f]["bio"][m])) for f in LPF} if has_use else
+                   {f: dict(feed=num(0.0), bio=num(0.0)) for f in LPF})
+        ev.append(dict(ev="Month", m=m, alloc=alloc, reported=reported, keq=keq, csv=csv, fed=num(it["kcals_fed"][m]),
+                       hasUse=bool(has_use), useAlloc=use_alloc, useKeq=use_keq))
     ev.append(dict(ev="End"))
     return dict(hdr=dict(cc=run["job"]["cc"], preset=run["job"]["preset"], round=lp["round"], kind=lp["kind"], pf=it["pf"], z=lp["z"],
                          has_csv=bool(it.get("csv"))), ev=ev)
